@@ -7,6 +7,8 @@
 cd /verif || exit 9
 echo "== 1. unchanged tree"
 for i in $(seq -w 1 20); do ./check C$i --no-evidence | tail -1; done
+echo "== 1b. unchanged tree, thorough configurations (default + cli), without the control replays"
+for i in $(seq -w 1 20); do VERIF_NO_CONTROLS=1 ./check C$i --tier thorough --no-evidence | tail -1; done
 echo "== 2. neutral corpus"
 for f in neutral/*.diff; do n=$(basename $f .diff); r=$(tools/tryneutral.sh $f 2>&1 | tr '\n' ' '); echo "$n: $r"; done
 echo "== 3. breaking corpus"
